@@ -1631,14 +1631,21 @@ func (r *Raft) takeSnapshot() {
 	if err := r.fsm.Snapshot(snapshot); err != nil {
 		r.logger.Fatalf("failed to take snapshot of state machine: error = %v", err)
 	}
-	if err := snapshot.Close(); err != nil {
-		r.logger.Fatalf("failed to close snapshot file: error = %v", err)
-	}
 	r.mu.Lock()
 
 	// It's possible a snapshot was installed and the log was compacted while the lock was released.
+	// This snapshot is then out of date and must not be published: the snapshot storage hands out
+	// the most recently created snapshot, which would be this one if the installed snapshot's file
+	// was created first, and a restart would restore an older state than the log was discarded for.
 	if lastAppliedEntry.Index <= r.lastIncludedIndex {
+		if err := snapshot.Discard(); err != nil {
+			r.logger.Fatalf("failed to discard snapshot file: error = %v", err)
+		}
 		return
+	}
+
+	if err := snapshot.Close(); err != nil {
+		r.logger.Fatalf("failed to close snapshot file: error = %v", err)
 	}
 
 	// Compact the log.
